@@ -43,6 +43,7 @@ def required_cells(tier):
     for c in CLASSES:
         req["class:" + c] = 100 if q else 3000
     req["tolerance-degenerate"] = 300
+    req["history:base-polygon-moved-into-place"] = 30 if q else 600
     req["unsupported:exhaustive-pairs"] = len(UNSUP)      # sequential enumeration => every listed (function, kind, kind) at least once
     return req
 
@@ -284,6 +285,21 @@ def judge(case):
             e = abs(_tiny(r)) / K.norm(n)
             ap = [float(apex[t]) + n[t] * e for t in range(3)]
             fn = lambda: G.Pyramid(lift(pg, None), G.Point(*ap), direct_call=False)
+        elif r.random() < 0.4:
+            # the base reaches its place through a history: built elsewhere, used, moved in place (the moved receiver
+            # is the base), possibly as the negation of the polygon that was built
+            from ..desc import translate
+            mu.cell("history:base-polygon-moved-into-place")
+            w = tuple(F(r.randint(-6, 6), r.choice((1, 2))) for _ in range(3))
+            base = lift(translate(pg, K.mul(w, -1)), r)
+            if r.random() < 0.3:
+                base = -base
+            try:
+                base.area(), hash(base)
+                base.move(_V(G, w))
+            except Exception:
+                pass
+            fn = lambda: G.Pyramid(base, _P(G, apex), direct_call=False)
         else:
             fn = lambda: G.Pyramid(lift(pg, None), _P(G, apex), direct_call=False)
         res, exc, _ = M.call(fn, pure=False)
